@@ -46,8 +46,16 @@ D = {  # id: (caught_by, first_run, strengthening)
  "C05_4": (["C05", "C06"], "missed", "vlib/ruleset.py: rule names are unique per namespace only (two namespaces declare rules of the same name)"),
  "C15_3": (["C15"], "missed", "vlib/props/c15.py: rule sets decided in the first pass, several namespaces, a false global rule after a true one (every timeout point lies in the first pass)"),
  "C15_4": (["C15"], "missed (no raw regex in the generator; the sticky hook masked the swallowed timeout)", "hook: timeout firing at one check only (cf35779); every timeout point is also run in that mode; regex strings without literal in the generated rule sets"),
- "C07_1": ([], "pending", None),
- "C07_2": ([], "pending", None),
+ "C06_3": (["C01", "C06"], "missed by C06 (caught by C01)", "vlib/ruleset.py: nocase text strings and inputs in another case than written, in C05 / C06 rule sets"),
+ "C06_4": (["C06"], "caught", None),
+ "C19_3": (["C19"], "broken tie only (no failing input)", "Model/ProcessCase.v: a failed fetch is accepted by the specification only where nothing is readable; victim maps files at non-zero offsets"),
+ "C19_4": (["C19"], "caught", None),
+ "C10_3": (["C10"], "caught", None),
+ "C10_4": (["C10 (broken tie, no failing input)"], "broken tie only", "pending with its owner: user module replacing a built-in one by name on reload (notes/C10.md)"),
+ "C13_3": ([], "missed", "pending with its owner: history-dependent sequences with cache-thrashing regexes compared with a fresh scanner (notes/C13.md)"),
+ "C13_4": ([], "missed", "pending with its owner: sequences mixing inputs decided before the string scan and inputs needing it, full results compared with a fresh scanner (notes/C13.md)"),
+ "C07_1": (["C07"], "caught at one seed in three", "vlib/props/c07.py: generator atom `for K of (set) : (<N of (set2)> and/or <anonymous reference>)`; corpus replay"),
+ "C07_2": (["C07"], "caught at one seed in three", "vlib/props/c07.py: string family of class-only single-length fullword regexes (raw path) with members placed end to end after an alphanumeric byte; corpus replay"),
 }
 for sid, (by, first, how) in D.items():
     d = "/verif/seeded/" + sid
